@@ -136,3 +136,33 @@ Record requeuer_cfg_case := RQC { q_sub : bool; q_topic : bool; q_pub : bool; q_
 Definition requeuer_cfg_mismatch (c : requeuer_cfg_case) : bool :=
   negb (ctor_code (requeuer_new (q_sub c) (q_topic c) (q_pub c) (q_gen c)) =? q_res c).
 Definition requeuer_cfg_mismatches (cs : list requeuer_cfg_case) : list nat := positions (map requeuer_cfg_mismatch cs).
+
+(** ** round "proofs": redelivery from a real GoChannel source *)
+From WM Require Import Relay.Redelivery.
+
+Record redeliv_case := RD {
+  d_comp : kcomp; d_src : N; d_msg : msg;          (* the original handed to the source GoChannel *)
+  d_beh : list attempt;                            (* what the destination does per attempt *)
+  d_dec : option envelope; d_atoi : list (N * Z); d_itoa : list (Z * N); d_rk : N;
+  d_obs : list (settle * list ev);                 (* the attempts the implementation made *)
+  d_after : msg                                    (* the original afterwards *)
+}.
+Definition res_eqb (a b : settle * list ev) : bool :=
+  settle_eqb (fst a) (fst b) && list_eqb ev_eqb (snd a) (snd b).
+Definition redeliv_mismatch (c : redeliv_case) : bool :=
+  let '(rs, o) := redeliver (fun _ => d_dec c) (lookupN (d_atoi c)) (lookupZ (d_itoa c)) (d_rk c)
+                            FreshCopy (comp_of (d_comp c)) (d_src c) (d_msg c) (d_beh c) in
+  negb (list_eqb res_eqb rs (d_obs c) && msg_eqb o (d_after c)).
+Definition redeliv_violates (c : redeliv_case) : bool :=
+  negb (redelivery_monitor (fun _ => d_dec c) (lookupN (d_atoi c)) (d_rk c)
+                           (comp_of (d_comp c)) (d_src c) (d_msg c) (d_beh c) (d_obs c) (d_after c)).
+Definition redeliv_mismatches (cs : list redeliv_case) : list nat := positions (map redeliv_mismatch cs).
+Definition redeliv_violations (cs : list redeliv_case) : list nat := positions (map redeliv_violates cs).
+
+(** forwarder.Publisher -> GoChannel -> Forwarder -> GoChannel (blocking) -> a subscriber that nacks
+    the first k copies: it must see k+1 intact copies on the topic published to, and nothing else.
+    (the fan-out acceptor with "k+1 deliveries" in the place of "n subscribers") *)
+Record chain_case := CH { h_topic : N; h_msg : msg; h_nacks : nat; h_got : list (N * msg); h_final : settle }.
+Definition chain_violates (c : chain_case) : bool :=
+  negb (fanout_monitor (h_topic c) (h_msg c) (S (h_nacks c)) false (h_got c) [] (h_final c)).
+Definition chain_violations (cs : list chain_case) : list nat := positions (map chain_violates cs).
